@@ -85,7 +85,7 @@ def alias_check(rep: C.Report) -> None:
                 else:
                     bad.append((attr, src, pr.label, pr.line))
         ob.samples.append({"attributes_bound_to_module_level_names": sorted(attrs), "in_place_mutations_of_an_alias": bad})
-        if not bad:
+        if not bad and not C.distrust():
             ob.verdict = C.DISCHARGED
             ob.conditions = max(ob.conditions, 1)
             ob.confirmed_conditions = max(ob.confirmed_conditions, 1)
@@ -171,7 +171,7 @@ def lua_stack_balance(rep: C.Report) -> None:
             else:
                 bad.append((ex.kind, ex.line))
         ob.samples.append({"query": "return reached after a frame push with frame pops != pushes or environment pops != pushes", "violating_exits": bad})
-        if not bad:
+        if not bad and not C.distrust():
             ob.verdict = C.DISCHARGED
             return
         # replay on the real sandbox: a failing invocation followed by a stateful module, same page
@@ -257,7 +257,7 @@ def captured_not_rebound(rep: C.Report) -> None:
                     ob.confirmed_conditions += 1
                 else:
                     bad.append((q[1], ex.kind, ex.line))
-        if not bad:
+        if not bad and not C.distrust():
             ob.verdict = C.DISCHARGED
             return
         ob.samples.append({"rebinding_paths": bad[:5]})
